@@ -19,7 +19,10 @@ AtTokens == pc \in {"tokenized", "tok_done", "tags_done", "tree_done"}
 (***************************************************************************)
 (* C01 totality: no behaviour of the specification contains a panic.       *)
 (***************************************************************************)
-C01 == pc # "crashed" /\ pc # "failed"
+\* a process run of the command on a readable source with well-formed options ends normally too: exit status 0 (a panic
+\* ends the process with 101, an abort with a signal) and a standard output that is valid UTF-8
+C01_Cli == pc = "cli_done" => (res.exit = 0 /\ res.stdout_utf8)
+C01 == pc # "crashed" /\ pc # "failed" /\ C01_Cli
 
 (***************************************************************************)
 (* C07 lossless partition with consistent offsets.                         *)
